@@ -154,8 +154,9 @@ def run(ctx):
     # what `pending.re & pending.r[i]` means is decided in CSRStatus: r latched under the write strobe, re = that strobe delayed
     from .c12 import status_write_latch, storage_word_slices
     status_write_latch(ctx, "V3")
-    from .c12 import word_loop_order
+    from .c12 import word_loop_order, bank_decode
     word_loop_order(ctx, "V3", classes=("CSRStatus",))
+    bank_decode(ctx, "V3")
     # ... and `enable.storage[i]` is the bit software wrote for source i only if bus word w of the enable register is bits
     # [w*busword : ...] of its storage (more sources than the CSR bus is wide)
     storage_word_slices(ctx, "V3")
